@@ -122,6 +122,19 @@ def adversarial(rng):
         ("elim_relax", [tl, cl], lambda: tl.elim_vars_by_relaxing(cl, elim, sp, order)),
         ("to_str_list", [tl], lambda: tl.to_str_list()),
     ]
+    # term level: a rename that merges two variables with exactly opposite coefficients, then calls on the renamed term
+    from pacti.terms.polyhedra import PolyhedralTerm
+    kk = float(rng.choice([1, 2, 0.5]))
+    a_, b_ = Var("ra"), Var("rb")
+    t0 = PolyhedralTerm({a_: kk, b_: -kk, Var("rc"): 1.0} if rng.random() < 0.5 else {a_: kk, b_: -kk}, float(rng.randint(-3, 3)))
+    def renamed():
+        return t0.rename_variable(a_, b_)
+    ops += [
+        ("term_rename_cancel", [], lambda: renamed()),
+        ("term_rename_then_isolate", [], lambda: renamed().isolate_variable(b_)),
+        ("term_rename_then_substitute", [], lambda: renamed().substitute_variable(b_, PolyhedralTerm({Var("rc"): 1.0}, 0.0))),
+        ("term_rename_then_elim", [], lambda: PolyhedralTermList([renamed()]).elim_vars_by_refining(PolyhedralTermList([PolyhedralTerm({b_: 1.0}, 2.0)]), [b_], False, order)),
+    ]
     return kind, ops
 
 
